@@ -43,6 +43,34 @@ MUST_REACH = [
 ]
 
 KNOWN_MASK_CONF = "C02:fastpath-invert-before-confusion"
+K_SAMPLE_CLIFFORD = "C02:cirq.sample-clifford-dispatch-accepts-ops-the-clifford-simulator-cannot-apply"
+K_QUDIT_MASK_UNITARY = "C02:has_unitary(circuit)-raises-for-inverted-qudit-measurement"
+
+
+def _sample_failure_mechanism(cirq, circuit, exc):
+    """explained-by tests for the two recorded ways cirq.sample fails before it simulates anything"""
+    msg = str(exc)
+    if isinstance(exc, TypeError) and "CliffordSimulator doesn't support" in msg:
+        # the dispatch asks CliffordSimulator.is_supported_operation (= has_stabilizer_effect) op by op, which also
+        # accepts multi-qubit Clifford unitaries the simulator has no rule for
+        if all(cirq.CliffordSimulator.is_supported_operation(op) for op in circuit.all_operations()):
+            try:
+                cirq.Simulator(seed=0).run(circuit)
+                return K_SAMPLE_CLIFFORD
+            except Exception:
+                return None
+    if isinstance(exc, ValueError) and "Wrong shape of qids for <cirq.X>" in msg:
+        # Circuit._has_unitary_ rewrites inverted measurements into X gates, which do not exist on a qudit
+        inverted_qudit = any(cirq.is_measurement(op) and isinstance(op.gate, cirq.MeasurementGate)
+                             and any(b and q.dimension != 2 for q, b in zip(op.qubits, op.gate.invert_mask))
+                             for op in circuit.all_operations())
+        if inverted_qudit:
+            try:
+                cirq.has_unitary(circuit)
+            except ValueError as e2:
+                if "Wrong shape of qids for <cirq.X>" in str(e2):
+                    return K_QUDIT_MASK_UNITARY
+    return None
 
 
 def _records_key(result):
@@ -95,6 +123,9 @@ def _run_distribution(ctx, steps, dims, qubits, circuit, kind, wit, reps=1):
     import cirq
 
     def run(rng_obj):
+        if kind == "mux-sample128":
+            # cirq.sample picks the simulator itself (Clifford / state vector / density matrix) from what the circuit holds
+            return _records_key(cirq.sample(circuit, seed=rng_obj, dtype=np.complex128))
         sim = _make_sim(kind, rng_obj)
         res = sim.run(circuit, repetitions=1)
         return _records_key(res)
@@ -158,11 +189,20 @@ def sec_run(ctx, rng, case):
         ref = {tuple(sorted((f[k], inst) for k, inst in rec)): p for rec, p in ref.items()}
         ctx.event("rekeyed:" + rekey)
     kinds = [SIMS[int(i)] for i in rng.choice(len(SIMS), size=2, replace=False)]
+    if rng.random() < 0.3:
+        kinds[1] = "mux-sample128"
     nontriv = sum(1 for p in ref.values() if p > 1e-6) >= 2
     both = any(s["t"] == "M" and s.get("mask") and s.get("conf") for s in steps)
     for kind in kinds:
         wit = dict(dims=dims, program=P.describe(steps), layout=layout, simulator=kind, terminal=_is_terminal_only(steps), rekey=rekey)
-        ex = _run_distribution(ctx, steps, dims, qubits, circuit, kind, wit)
+        try:
+            ex = _run_distribution(ctx, steps, dims, qubits, circuit, kind, wit)
+        except (TypeError, ValueError) as e:
+            km = _sample_failure_mechanism(cirq, circuit, e) if kind == "mux-sample128" else None
+            if km is None:
+                raise
+            ctx.check(False, "run-distribution==born", km, "cirq.sample raised %s: %s" % (type(e).__name__, str(e)[:200]), **wit)
+            continue
         if ex.over_budget:
             ctx.event("explorer-over-budget")
             continue
